@@ -663,7 +663,7 @@ theorem compEE_correct_tok (C : Ctx D) (QC : QCtx D) (hN : QC.N = C.N) (hev : QC
         (fun c hc => hsn c (by simpa [sumChainsEE] using hc)) hda
       refine ⟨s1, by simpa [compEE] using h1, h2, by simp [compEE, evalE, h3, hden], ?_, by simpa [compEE] using h5⟩
       simp only [tyEE]
-      rw [hwt.2] at h4 ⊢
+      rw [hwt.2] at h4
       obtain ⟨b, rfl⟩ := hasTy_bool h4
       simp [unop, asBool] at hden; subst hden; simp [HasTy]
 
